@@ -108,6 +108,22 @@ pub fn op_write_targets(op: &WarpOp) -> OpTargetsView {
     }
 }
 
+/// Store-aware attributed write targets of `op` (what enforcement checks).
+#[cfg(any(debug_assertions, feature = "footprint_enforce_release"))]
+#[cfg(not(feature = "unsafe_graph"))]
+#[must_use]
+pub fn op_write_targets_in(store: &crate::graph::GraphStore, op: &WarpOp) -> OpTargetsView {
+    let t = crate::footprint_guard::op_write_targets_in(store, op);
+    OpTargetsView {
+        nodes: t.nodes,
+        edges: t.edges,
+        attachments: t.attachments,
+        is_instance_op: t.is_instance_op,
+        op_warp: t.op_warp,
+        kind_str: t.kind_str,
+    }
+}
+
 /// `true` when footprint enforcement is compiled into this build.
 #[must_use]
 pub const fn enforcement_compiled() -> bool {
